@@ -152,3 +152,16 @@ def in_field(pe, field, adt_suffix=None):
         return False
     a, n = fs[-1]
     return n == field and (adt_suffix is None or a.endswith(adt_suffix))
+
+
+def checked_access_fact(S, idx_pred, present):
+    """`vec.get(i)` / `vec.get_mut(i)` with idx_pred(i) was found Some (present=True: i is in range) or None
+    (present=False: out of range), directly or through `?`"""
+    want = ('Some', 'Continue') if present else ('None', 'Break')
+    for f in S:
+        if f[0] == 'variant' and f[2] in want:
+            for x in walk(f[1]):
+                if isinstance(x, tuple) and x and x[0] == 'call' and (x[1].endswith('<impl [T]>::get') or x[1].endswith('<impl [T]>::get_mut')) \
+                        and len(x[2]) == 2 and idx_pred(x[2][1]):
+                    return True
+    return False
